@@ -10,6 +10,7 @@ import Driver.PubClient
 import Driver.ReqClient
 import Driver.Registry
 import Driver.Tls
+import Driver.KeepAlive
 
 /-! `drv`: one case per input line, one result per output line (see /verif/DESIGN.md, section 3.2). -/
 
@@ -24,6 +25,7 @@ def step (line : String) : String :=
   | "ps" :: rest => Driver.PubSub.run rest
   | "rr" :: rest => Driver.ReqRep.run rest
   | "tls" :: rest => Driver.Tls.run rest
+  | "rec" :: rest => Driver.KeepAlive.run rest
   | "rq" :: rest => Driver.ReqClient.run rest
   | "pp" :: rest => Driver.PubClient.run rest
   | "ppx" :: rest => Driver.PubClient.run rest
